@@ -153,6 +153,35 @@ def sweep(tier, seed=0):
                         break
             if len(fails) >= 40:
                 break
+    # a RuleSet that grows through RuleSet.add, with rewrites in between: after every add the answers are those of a
+    # RuleSet built from the same rules at once (nothing remembered from before the add may survive)
+    if sum(1 for x in fails if not x.args.get("arity_mismatch")) < 5:
+        grow = [[(f, "x", "x"), (f, "x", "y"), (g, "x")], [(g, (g, "x")), (g, "x"), (f, (g, "x"), "y")], [(f, "a", "x"), (f, "x", 0), (f, "x", "y")]]
+        probe = [t for t in tms if isinstance(t, tuple)][:: 2 if tier == "quick" else 1]
+        for lhss in grow:
+            rules = [RewriteRule(lhs, (h, i), VARS) for i, lhs in enumerate(lhss)]
+            rs = RuleSet()
+            for n, rule in enumerate(rules, 1):
+                rs.add(rule)
+                ref = RuleSet(*rules[:n])
+                for term in probe:
+                    cases += 1
+                    try:
+                        got, want = rs.rewrite(term, strategy="top_level"), ref.rewrite(term, strategy="top_level")
+                        gm = sorted(rules.index(r) for r, _ in rs.iter_matches(term))
+                        wm = sorted(i for i in range(n) if match(lhss[i], term, VARS, {}) is not None)
+                        msg = None
+                        if gm != wm:
+                            msg = f"after add() number {n}: iter_matches yields rules {gm}, the matching rules are {wm}"
+                        elif wm and not any(got == (h, i) for i in wm):
+                            msg = f"after add() number {n}: rules {wm} match but top-level rewrite returned {got!r} (a RuleSet built at once returns {want!r})"
+                        elif not wm and not (got is term or got == term):
+                            msg = f"after add() number {n}: no rule matches but the term was rewritten to {got!r}"
+                    except Exception as e:  # noqa
+                        msg = f"{type(e).__name__}: {e}"
+                    if msg:
+                        fails.append(rtc.Failure("RuleSet.iter_matches", {"rules": [repr(x) for x in lhss[:n]], "term": repr(term), "history": "add/rewrite/add"}, "ensures", "C51-sound-and-complete", msg))
+                        break
     return {"function": "dask/rewrite.py:RuleSet.iter_matches/_rewrite (real code) vs a brute-force matcher", "bounded": True,
             "bound": {"alphabet": "f/2, g/1, constants 'a', 0, 1, '' (falsy ones included), variables x, y", "pattern/term depth": 2, "rule sets": len(rulesets)},
             "cases": cases, "distinct_nontrivial": cases, "failures_found": len(fails), "wall_s": round(time.time() - t0, 2),
